@@ -46,6 +46,13 @@ func (env *Env) evalLoc(e *E) Loc {
 				return Loc{Kind: "map", Base: env.term(m), MapT: m.T.Underlying().(*types.Map)}
 			case "closed":
 				return Loc{Kind: "chan", Base: env.term(env.eval(e.Args[1]))}
+			case "deref":
+				p := env.eval(e.Args[1])
+				pv, ok := p.V.(PtrV)
+				if !ok {
+					env.fail("deref of non-pointer")
+				}
+				return Loc{Kind: "field", P: pv}
 			case "old":
 				sub := *env
 				sub.inOld = true
@@ -304,6 +311,22 @@ func (ex *Exec) checkPost(s *State, ret *ssa.Return, results []Val) {
 	for _, e := range ex.con.Ensures {
 		goal := ex.evalBool(env, e.Expr)
 		ex.oblige(s, fmt.Sprintf("%s#post.%s", ex.key, e.Label), "post", ret.Pos(), e.Tags, goal, e.Src)
+		if n := len(ex.obls); n > 0 && ex.obls[n-1].Kind == "post" {
+			ex.obls[n-1].Results = results
+		}
+	}
+	// every mutex taken by this call has been released
+	if len(ex.con.Guards) > 0 {
+		var keys []string
+		for k := range s.Ghost {
+			if strings.HasPrefix(k, "lock:") {
+				keys = append(keys, k)
+			}
+		}
+		sort.Strings(keys)
+		for _, k := range keys {
+			ex.oblige(s, fmt.Sprintf("%s#lock.released", ex.key), "lock", ret.Pos(), ex.con.Guards[0].Tags, Eq(s.Ghost[k], IntLit(0)), "mutex released on return")
+		}
 	}
 	if ex.con.AssignsAny {
 		return
